@@ -313,6 +313,70 @@ impl Leg for GiantPython {
     }
 }
 
+// ---------------------------------------------------------------------------------------------
+// offsets beyond 2^32: a gap of about 4 GiB of ambiguous bytes in front of a short tail. Metamorphic
+// oracle: the runs are those of the tail alone, shifted by the length of the gap. Needs 4.3 GB of
+// memory and about 20 s, so it runs in the thorough tier only (shard 0), or with VERIF_FAR=1.
+
+#[derive(Clone, Debug, Serialize, Deserialize)]
+pub struct FarCase {
+    pub tail: Bytes,
+    pub w: usize,
+    pub m: usize,
+    /// the gap has 2^32 - short bytes
+    pub short: usize,
+}
+
+impl FarCase {
+    pub fn gap(&self) -> usize {
+        (1usize << 32) - self.short
+    }
+    pub fn seq(&self) -> Vec<u8> {
+        let mut s = vec![b'N'; self.gap()];
+        s.extend_from_slice(&self.tail.0);
+        s
+    }
+    pub fn want(&self) -> Vec<(u64, usize, usize)> {
+        let g = self.gap();
+        model::minimiser_runs(&self.tail.0, self.w, self.m).into_iter().map(|(a, s, e)| (a, s + g, e + g)).collect()
+    }
+}
+
+pub fn far_strategy(max_w: usize) -> BoxedStrategy<FarCase> {
+    gen::wm_strategy(31, max_w)
+        .prop_flat_map(|(w, m)| (gen::seq(w, 400, false), Just(w), Just(m), prop_oneof![1 => 0usize..=40, 1 => 41usize..=300]))
+        .prop_map(|(mut tail, w, m, short)| {
+            // the tail starts with a clean stretch so that runs begin on both sides of 2^32
+            let mut t: Vec<u8> = b"ACGTTGCAAGGCTTAACCGGTTACGATCGATCGGCTAGGCTAGCTAGGATCGATTAGCCATGCAAGTCCGATAGCTAGCTTTAGCGCGATATCGCATCGAGGCTAGCTAGATCCGATAGCTAGTCGATCGGCTAGGCT".to_vec();
+            t.append(&mut tail);
+            FarCase { tail: Bytes(t), w, m, short }
+        })
+        .boxed()
+}
+
+pub fn far_enabled(ctx: &Ctx) -> bool {
+    ctx.shard == 0 && (ctx.tier == Tier::Thorough || std::env::var("VERIF_FAR").map(|v| v == "1").unwrap_or(false))
+}
+
+pub struct Far;
+impl Leg for Far {
+    type Case = FarCase;
+    const NAME: &'static str = "offsets-beyond-2^32";
+    fn strategy(_tier: Tier) -> BoxedStrategy<FarCase> {
+        far_strategy(91)
+    }
+    fn check(c: &FarCase) -> Verdict {
+        let mut v = Verdict::new();
+        let want = c.want();
+        v.nontrivial = want.iter().any(|r| r.2 > (1usize << 32));
+        v.class("offsets-beyond-2^32");
+        let seq = c.seq();
+        let got: Vec<(u64, usize, usize)> = MinimiserGenerator::new(&seq, c.w, c.m).collect();
+        compare_big(&mut v, &got, &want, c.w, c.m);
+        v
+    }
+}
+
 /// first calls of a fresh process made by several threads at once
 pub struct Cold;
 impl Leg for Cold {
@@ -333,6 +397,9 @@ pub fn run(ctx: &mut Ctx) {
     ctx.run_leg::<Cold>(nc, false, 40);
     super::coldstart::infra_inconclusive(ctx);
 
+    if far_enabled(ctx) {
+        ctx.run_leg::<Far>(2, false, 0);
+    }
     let n = ctx.share(ctx.tier.pick(64, 1_600));
     ctx.run_leg::<GiantLib>(n, false, 12);
     let n = ctx.share(ctx.tier.pick(24, 480));
@@ -358,6 +425,7 @@ pub fn replay(leg: &str, case: &serde_json::Value) -> Option<Result<Verdict, Str
         "exhaustive" | "random" => Some(crate::engine::replay_leg::<Random>(case)),
         "python" => Some(crate::engine::replay_leg::<Python>(case)),
         "giant-windows" => Some(crate::engine::replay_leg::<GiantLib>(case)),
+        "offsets-beyond-2^32" => Some(crate::engine::replay_leg::<Far>(case)),
         "giant-python" => Some(crate::engine::replay_leg::<GiantPython>(case)),
         "cold-start-threads" => Some(crate::engine::replay_leg::<Cold>(case)),
         _ => None,
